@@ -910,6 +910,38 @@ func runC04(c *runCtx) error {
 		}
 		ctx.statement(field, g.boolean(1+r.intn(3)))
 	}
+	// ---- I: statements with a REPEATED field name, one of the definitions constant / foldable: a name
+	// denotes the FIRST field carrying it, whatever the folder does to the others; compared with
+	// the same statement written without names
+	for _, pq := range [][2]string{
+		{"select int(value) as x, 2 + 3 as x, key where x > 4", "select int(value), 2 + 3, key where int(value) > 4"},
+		{"select 2 + 3 as x, int(value) as x, key where x > 4", "select 2 + 3, int(value), key where 2 + 3 > 4"},
+		{"select strlen(key) as n, 1 + 1 as n, n * 10 as m, key where n < 2", "select strlen(key), 1 + 1, strlen(key) * 10, key where strlen(key) < 2"},
+		{"select key as a, 'x' + 'y' as a, a + '!' as b where a != 'xy'", "select key, 'x' + 'y', key + '!' where key != 'xy'"},
+		{"select is_int(value) as b, 1 < 2 as b, key where b", "select is_int(value), 1 < 2, key where is_int(value)"},
+		{"select 1 < 2 as b, is_int(value) as b, key where b | key = 'zz'", "select 1 < 2, is_int(value), key where 1 < 2 | key = 'zz'"},
+		{"select upper(key) as u, upper('a' + 'b') as u, key where u ^= 'A'", "select upper(key), upper('a' + 'b'), key where upper(key) ^= 'A'"},
+	} {
+		var ref string
+		for _, md := range []struct {
+			batch bool
+			B     int
+		}{{false, 32}, {true, 3}, {true, 32}} {
+			for which, q := range pq {
+				res := runQuery(q, newStore(c04Pairs), md.batch, md.B, which == 0 && md.B == 3)
+				got := fmt.Sprint(res.Err, res.Panic, canonRows(res.Rows))
+				rp := c04Replay{Expr: q, Family: "I repeated field name", Query: q, HowTo: "compare with the statement written without names: " + pq[1], Batches: md.B}
+				idx := e.add("Case (EBool 0 true) (EBool 0 true) P []", rp, false)
+				e.count("family I repeated field name")
+				if ref == "" {
+					ref = got
+				} else if got != ref {
+					rp.Orig, rp.After = ref[:min(len(ref), 400)], got[:min(len(got), 400)]
+					e.fail(idx, "a statement with a repeated field name returns other rows than the same statement written without names", "C04/repeated-name", rp)
+				}
+			}
+		}
+	}
 	e.m.Exhaustive = thorough
 	return e.flush()
 }
